@@ -103,7 +103,8 @@ Definition handle_ode (cmd : string) (args : list sexp) : option sexp :=
     | _ => Some (err "bad args")
     end
   else if String.eqb cmd "ode.jactext" then
-    (* the text of every Jacobian entry of the species block (C02.jac_text_is_derivative), row-major;
+    (* the text of every Jacobian entry, temperature row and column included (C02.jac_text_is_derivative,
+       C02.jac_thermal_text_is_derivative), row-major;
        "none" for an entry holding a modifier factor *)
     match args with
     | [ns_; rs; ms; hs; cs; als] =>
@@ -113,11 +114,16 @@ Definition handle_ode (cmd : string) (args : list sexp) : option sexp :=
             let mag := fun n => chars (print_Z (Z.of_nat n)) in
             let n := n_eqns i in
             Some (L (map (fun rc : nat * nat =>
-                            match tterms_of (nth (fst rc * n + snd rc) (st_jac (ode_terms i)) []) with
-                            | Some ts => A (str (flatten_with mag name (rhs_txt ts)))
+                            let e := nth (fst rc * n + snd rc) (st_jac (ode_terms i)) [] in
+                            match tterms_of e with
+                            | Some ts =>
+                                (* temperature row (C02.jac_thermal_text_is_derivative): wrapped unless "0.0" *)
+                                if jac_wrapped i (fst rc) (snd rc) e
+                                then A (str (flatten_with mag name (wrapped_txt (unspaced ts))))
+                                else A (str (flatten_with mag name (rhs_txt (unspaced ts))))
                             | None => A "none"
                             end)
-                         (flat_map (fun r => map (fun c => (r, c)) (seq 0 (i_nspec i))) (seq 0 (i_nspec i)))))
+                         (flat_map (fun r => map (fun c => (r, c)) (seq 0 n)) (seq 0 n))))
         | _, _ => Some (err "bad ode input")
         end
     | _ => Some (err "bad args")
